@@ -125,7 +125,8 @@ def obsOf (m : MState) : Args :=
      -- the byte layout of the storage: `encodeObserved` of the model state (zero stakes / empty claim lists
      -- dropped, as the harness drops them: `scen_cw4group::render_raw_keys`); probes = the first two actors.
      -- `resyncOf` does not read this field (everything it shows is determined by the fields above).
-     ("rawkeys", RawStore.renderRawKeys (m.pool.take 2) (encodeObserved s))]
+     ("rawkeys", RawStore.renderRawKeys (m.pool.take 2) (encodeObserved s)),
+     ("rawextra", "")]
 
 /-! ## Re-synchronisation -/
 
